@@ -8,6 +8,7 @@ import (
 	"encoding/hex"
 	"encoding/json"
 	"fmt"
+	"math"
 	"os"
 	"path/filepath"
 	"sort"
@@ -168,6 +169,7 @@ func (c *ctx) disagree(d Disagreement) {
 	if c.tooMany() {
 		return
 	}
+	d.Input = jsonSafe(d.Input)
 	b, _ := json.Marshal(d)
 	h := sha1.Sum(b)
 	name := fmt.Sprintf("%s-%s.json", c.prop, hex.EncodeToString(h[:6]))
@@ -287,4 +289,35 @@ func decodeOutcome(o string) string {
 		return o[:300] + "…"
 	}
 	return o
+}
+
+// jsonSafe makes a value marshalable: non-finite numbers, functions and other non-JSON values
+// (which a broken implementation can return) are replaced by descriptive strings.
+func jsonSafe(v interface{}) interface{} {
+	switch x := v.(type) {
+	case nil, string, bool:
+		return x
+	case float64:
+		if math.IsInf(x, 0) || math.IsNaN(x) {
+			return fmt.Sprint("non-finite:", x)
+		}
+		return x
+	case []interface{}:
+		out := make([]interface{}, len(x))
+		for i, e := range x {
+			out[i] = jsonSafe(e)
+		}
+		return out
+	case map[string]interface{}:
+		out := make(map[string]interface{}, len(x))
+		for k, e := range x {
+			out[k] = jsonSafe(e)
+		}
+		return out
+	default:
+		if _, err := json.Marshal(x); err != nil {
+			return fmt.Sprintf("unmarshalable %T: %s", x, valueSexp(x))
+		}
+		return x
+	}
 }
